@@ -321,6 +321,15 @@ def verify_function(info: ContractInfo) -> FunctionResult:
         res.obligations = []
         res.gen_time = time.time() - t0
         return res
+    except (z3.Z3Exception, AttributeError, TypeError, KeyError) as e:
+        # the source uses a construct at a type the translation has no rule for (e.g. a substring test where the contract
+        # declares a list): outside the verifier's subset for this contract -> undecided, never a verdict
+        import traceback
+        tb = traceback.extract_tb(e.__traceback__)
+        res.out_of_reach = f"ill-sorted for the declared contract sorts ({type(e).__name__}: {e}) in {tb[-1].name} ({tb[-1].filename.split('/')[-1]}:{tb[-1].lineno})"
+        res.obligations = []
+        res.gen_time = time.time() - t0
+        return res
     res.obligations = ctx.obligations
     res.ghost_log = ctx.ghost_log
     res.rng_used = ctx.rng_used
